@@ -348,23 +348,94 @@ def rule_r2_receivers(ctx, rid="C02.R2b"):
             ctx.r.ok(rid, "%s joins the carry in front of the rest" % norm(n.ast), f.loc(n.ast))
         else:
             ctx.r.violation(rid, key_of(f, None, "rest-update::" + norm(n.ast)[:40]), "unrecognised update of the unconsumed rest: %s" % norm(n.ast), f.loc(n.ast))
-    # chunk data: written == len(to_write), remainder decreases by written
+    # chunk data: the bytes stored are s[:remainder]; the rest advances and the remainder decreases by exactly len(stored).
+    # Decided by evaluating the straight-line block that holds the append over two symbols: R (chunk_remainder on entry) and
+    # L (len of the stored bytes); locals that alias / copy the remainder are followed.
     wr = [n for n, c in find_calls(g, lambda c: dotted(c.func) == "self.buf.append")]
+    parents = {}
+    for x in ast.walk(f.node):
+        for fld in ("body", "orelse", "finalbody"):
+            sub = getattr(x, fld, None)
+            if isinstance(sub, list):
+                for y in sub:
+                    parents[id(y)] = (x, sub)
     for n in wr:
-        c = [x for x in ast.walk(n.ast) if isinstance(x, ast.Call)][0]
-        a = c.args[0]
-        d = ex.reaching_defs(dotted(a), n) if isinstance(a, ast.Name) else []
-        ok = len(d) == 1 and isinstance(d[0].ast.value, ast.Subscript) and dotted(d[0].ast.value.value) == sname and d[0].ast.value.slice.lower is None
-        bound = d[0].ast.value.slice.upper if ok else None
-        dec = [m for m in g.nodes if m.kind == "stmt" and isinstance(m.ast, ast.AugAssign) and dotted(m.ast.target) == "self.chunk_remainder" and isinstance(m.ast.op, ast.Sub)]
-        adv = [m for m in upd if isinstance(m.ast.value, ast.Subscript) and g.dominates(n, m)]
-        if ok and dec and adv and norm(dec[0].ast.value) == norm(adv[0].ast.value.slice.lower) and norm(bound) in ("rm", "self.chunk_remainder"):
-            w = dec[0].ast.value
-            wd = ex.reaching_defs(dotted(w), dec[0]) if isinstance(w, ast.Name) else []
-            if len(wd) == 1 and norm(wd[0].ast.value) == "len(%s)" % dotted(a):
-                ctx.r.ok(rid, "chunk data: stored = s[:remainder], rest advances and remainder decreases by len(stored)", f.loc(n.ast))
-                continue
-        ctx.r.violation(rid, key_of(f, None, "chunk-data-accounting"), "chunk data accounting: the bytes stored, the advance of the rest and the decrease of chunk_remainder do not agree", f.loc(n.ast))
+        st_app = n.ast if isinstance(n.ast, ast.stmt) else None
+        ok = False
+        why = ""
+        if st_app is not None and id(st_app) in parents:
+            holder, block = parents[id(st_app)]
+            outer = parents.get(id(holder), (None, []))[1] if isinstance(holder, ast.stmt) else []
+            R, Lsym = Lin.sym("R"), Lin.sym("L")
+            env = {}
+            attr = R
+            stored = None
+            adv = None
+            c0 = [x for x in ast.walk(st_app) if isinstance(x, ast.Call)][0]
+            stored_name = dotted(c0.args[0]) if c0.args else None
+
+            def ev(e):
+                if isinstance(e, ast.Constant) and isinstance(e.value, int) and not isinstance(e.value, bool):
+                    return Lin.k(e.value)
+                if isinstance(e, ast.Name):
+                    return env.get(e.id)
+                if dotted(e) == "self.chunk_remainder":
+                    return attr
+                if isinstance(e, ast.BinOp) and isinstance(e.op, (ast.Add, ast.Sub)):
+                    a, b = ev(e.left), ev(e.right)
+                    if a is None or b is None:
+                        return None
+                    return a + b if isinstance(e.op, ast.Add) else a - b
+                if isinstance(e, ast.Call) and dotted(e.func) == "len" and len(e.args) == 1 and dotted(e.args[0]) == stored_name and stored is not None:
+                    return Lsym
+                return None
+            # statements before the `if` in the enclosing block may copy the remainder into a local
+            for y in outer:
+                if y is holder:
+                    break
+                if isinstance(y, ast.Assign) and len(y.targets) == 1 and isinstance(y.targets[0], ast.Name):
+                    env[y.targets[0].id] = ev(y.value)
+            bad = None
+            for y in block:
+                if isinstance(y, ast.Assign) and len(y.targets) == 1:
+                    t = y.targets[0]
+                    if isinstance(t, ast.Name) and t.id == stored_name:
+                        v = y.value
+                        if isinstance(v, ast.Subscript) and dotted(v.value) == sname and isinstance(v.slice, ast.Slice) and v.slice.lower is None and v.slice.upper is not None and ev(v.slice.upper) == R:
+                            stored = True
+                        else:
+                            bad = "the bytes stored are %s, not %s[:remainder]" % (norm(v), sname)
+                    elif isinstance(t, ast.Name) and t.id == sname:
+                        v = y.value
+                        if isinstance(v, ast.Subscript) and dotted(v.value) == sname and isinstance(v.slice, ast.Slice) and v.slice.upper is None and v.slice.lower is not None:
+                            adv = ev(v.slice.lower)
+                        else:
+                            bad = "the rest is updated by %s" % norm(v)
+                    elif isinstance(t, ast.Name):
+                        env[t.id] = ev(y.value)
+                    elif dotted(t) == "self.chunk_remainder":
+                        attr = ev(y.value)
+                elif isinstance(y, ast.AugAssign) and isinstance(y.op, (ast.Add, ast.Sub)):
+                    cur = ev(y.target) if not isinstance(y.target, ast.Name) else env.get(y.target.id)
+                    d = ev(y.value)
+                    nv = None if (cur is None or d is None) else (cur + d if isinstance(y.op, ast.Add) else cur - d)
+                    if isinstance(y.target, ast.Name):
+                        env[y.target.id] = nv
+                    elif dotted(y.target) == "self.chunk_remainder":
+                        attr = nv
+            if bad is None:
+                if stored is None:
+                    bad = "the value appended is not a prefix slice of the rest"
+                elif adv != Lsym:
+                    bad = "the rest advances by %s, the bytes stored have length L" % (adv,)
+                elif attr != R - Lsym:
+                    bad = "chunk_remainder becomes %s, expected R - L" % (attr,)
+            ok = bad is None
+            why = bad or ""
+        if ok:
+            ctx.r.ok(rid, "chunk data: stored = s[:remainder], rest advances and remainder decreases by len(stored)", f.loc(n.ast))
+        else:
+            ctx.r.violation(rid, key_of(f, None, "chunk-data-accounting"), "chunk data accounting: the bytes stored, the advance of the rest and the decrease of chunk_remainder do not agree (%s)" % why, f.loc(n.ast))
 
 
 CARRIES = (
